@@ -6,7 +6,11 @@ the capacity bound below, which uses the order of `send` and `recv` log lines in
 
 Worker events: `r<i>` recv of item i, `m<i>` merged, `x<i>` rejected, `d<i>` died holding i,
 `s` stop marker, `e` exit, and – when the hooks log them – `l` (the result-map mutex acquired),
-`u` (about to be released), `D` (the thread died while it held no item). Without `l`/`u` events
+`u` (about to be released), `D` (the thread died while it held no item), `M` (the thread died INSIDE
+`add_results`, after its `l`: the hook `panic_in_merge`; the mutex is poisoned from then on). A
+worker that has received an item, whose parse succeeds, and that then finds the mutex poisoned dies
+in `lock().unwrap()` without logging anything: the silent move `parsed · lock` of a worker whose
+logged events are used up, enabled only when `s.poisoned`. Without `l`/`u` events
 an `m<i>` stands for the whole sequence parsed · lock · mergeEntry* · unlock of that worker, done
 in one go (the mutex is then free between any two logged events). With them, `l` = parsed · lock,
 `u` = mergeEntry* · unlock, and `m<i>` must follow the `u` of item i: two workers whose
@@ -20,7 +24,7 @@ open Grcov.Pipeline
 
 inductive WEv where
   | recv (i : Item) | merged (i : Item) | rejected (i : Item) | died (i : Item) | stop | exit
-  | lockEv | unlockEv | diedIdle
+  | lockEv | unlockEv | diedIdle | diedMerging
 deriving Repr
 
 inductive MEv where
@@ -59,6 +63,10 @@ def size1 : Item → Nat := fun _ => 1
 def applyAll (fate : Item → Fate) (s : State) : List Step → Option State
   | [] => some s
   | st :: rest => if enabled size1 s st then applyAll fate (step fate s st) rest else none
+
+def isMergingW : W → Bool
+  | .merging _ _ => true
+  | _ => false
 
 /-- every move that consumes the next logged event of some thread and is enabled in the model -/
 def movesAll (fate : Item → Fate) (r : RState) : List RState :=
@@ -140,16 +148,30 @@ def movesAll (fate : Item → Fate) (r : RState) : List RState :=
         | .diedIdle :: evs' =>
           if enabled size1 s (.workerDies k) && s.workers.getD k .exited == .idle then
             [adv (step fate s (.workerDies k)) evs' 1] else []
+        | .diedMerging :: evs' =>
+          -- `died_in_merge` is logged after `lock`: the worker is inside `add_results`
+          if enabled size1 s (.workerDies k) && isMergingW (s.workers.getD k .exited) then
+            [adv (step fate s (.workerDies k)) evs' 1] else []
         | .exit :: evs' =>
           if s.workers.getD k .idle == .exited then [adv s evs' 0] else []
         | [] =>
-          if r.ghost && !r.ghosted.contains k && enabled size1 s (.recv k) then
-            [{ r with s := step fate s (.recv k), ghosted := k :: r.ghosted, steps := r.steps + 1 }] else []
+          (if r.ghost && !r.ghosted.contains k && enabled size1 s (.recv k) then
+            [{ r with s := step fate s (.recv k), ghosted := k :: r.ghosted, steps := r.steps + 1 }] else [])
+          ++
+          -- the mutex is poisoned: `lock().unwrap()` panics, nothing is logged
+          (match s.workers.getD k .exited with
+           | .holding i =>
+             if s.poisoned && fate i == .ok then
+               match applyAll fate s [.parsed k, .lock k] with
+               | some s' => if s'.workers.getD k .exited == .dead then [adv s' [] 2] else []
+               | none => []
+             else []
+           | _ => [])
       next ++ ws (k + 1) (pre ++ [evs]) post'
   p ++ ws 0 [] r.ws ++ m
 
 def keyOf (r : RState) : String :=
-  s!"{r.prod.length}/{r.mainEvs.length}/{r.ws.map List.length}/{repr r.s.mainPc}/{r.s.prodDead}/{r.s.prodDone}/{r.s.queue.length}/{r.ghosted}/{r.s.owner}/{r.unlocked.length}"
+  s!"{r.prod.length}/{r.mainEvs.length}/{r.ws.map List.length}/{repr r.s.mainPc}/{r.s.prodDead}/{r.s.prodDone}/{r.s.queue.length}/{r.ghosted}/{r.s.owner}/{r.unlocked.length}/{r.s.poisoned}/{r.s.lost.length}"
 
 def allConsumed (r : RState) : Bool := r.prod.isEmpty && r.ws.all List.isEmpty && r.mainEvs.isEmpty
 
@@ -159,25 +181,36 @@ def finishMain (fate : Item → Fate) : Nat → State → State
   | 0, s => s
   | fuel + 1, s => if !terminal s && enabled size1 s .main then finishMain fate fuel (step fate s .main) else s
 
-/-- depth-first search for a realisation of the per-thread event sequences by a model run -/
-def replayLog (fate : Item → Fate) : Nat → List RState → List String → String
+/-- depth-first search for a realisation of the per-thread event sequences by a model run. With
+`expect = some c` (request token `E:<c>`: the exit status of the real process) a realisation counts
+only if the model run ends with that status: which of two silent orders happened (the producer's
+last announced send fails because the last worker has just died on the poisoned mutex, or succeeds
+just before) is not in the log, the exit status decides. -/
+def replayLog (fate : Item → Fate) (expect : Option Nat) : Nat → List RState → List String → String
   | 0, _, _ => "rejected fuel"
   | _, [], seen => s!"rejected no-realisation explored={seen.length}"
   | fuel + 1, r :: stack, seen =>
+    let key := keyOf r
     if allConsumed r && !(r.prodDies && enabled size1 r.s .prodDies) then
       let s := finishMain fate (2 * r.s.n + 4) r.s
       let code := match s.mainPc with | .done c => s!"exit={c}" | _ => if stuck size1 s then "stuck" else "running"
-      let merged := (s.merged.mergeSort (· ≤ ·)).map toString
-      s!"accepted {code} merged={joinWith "," merged} steps={r.steps}"
+      let good : Bool := match expect with
+        | none => true
+        | some c => s.mainPc == .done c
+      if good then
+        let merged := (s.merged.mergeSort (· ≤ ·)).map toString
+        s!"accepted {code} merged={joinWith "," merged} steps={r.steps}"
+      else if seen.contains key then replayLog fate expect fuel stack seen
+      else replayLog fate expect fuel (movesAll fate r ++ stack) (key :: seen)
     else
-      let key := keyOf r
-      if seen.contains key then replayLog fate fuel stack seen
-      else replayLog fate fuel (movesAll fate r ++ stack) (key :: seen)
+      if seen.contains key then replayLog fate expect fuel stack seen
+      else replayLog fate expect fuel (movesAll fate r ++ stack) (key :: seen)
 
 def parseWEv (t : String) : Option WEv :=
   if t == "s" then some .stop else if t == "e" then some .exit
   else if t == "l" then some .lockEv else if t == "u" then some .unlockEv
   else if t == "D" then some .diedIdle
+  else if t == "M" then some .diedMerging
   else match t.toList with
     | 'r' :: ds => (String.ofList ds).toNat?.map .recv
     | 'm' :: ds => (String.ofList ds).toNat?.map .merged
@@ -220,7 +253,8 @@ def lockOrderViolation (evs : List String) : Option Nat :=
          | none => some i)
   go 0 none evs
 
-/-- `pipe.replay <n> <rxMain 0|1> P:1,2,3 M:j,t,t,w,w W:r1,m1,s,e W:r2,m2,s,e [O:ssrsr…] [X:0l,0u,…] [PD] [G]`;
+/-- `pipe.replay <n> <rxMain 0|1> P:1,2,3 M:j,t,t,w,w W:r1,m1,s,e W:r2,m2,s,e [O:ssrsr…] [X:0l,0u,…] [PD] [G] [E:<status>]`;
+`E:<status>`: only a realisation that ends with this exit status counts;
 `O:` is the order of send/recv log lines (capacity check), `PD` says the producer thread panicked
 after its last logged send (not through a failed send), a trailing `G` says the process ended
 through `process::exit(1)` while workers were still running -/
@@ -255,8 +289,12 @@ def handlePipeReplay : List String → String
       else
         let fate := fateOf wevs
         let s0 := init n (rx == "1") (prod ++ unsent)
-        pure (replayLog fate 200000 [{ s := s0, prod := prod, ws := wevs, mainEvs := mevs, unsent := extra, prodDies := pd, ghost := ghost,
-                                            lockEvents := allToks.any (·.startsWith "X:") }] [])
+        let expect : Option Nat :=
+          (allToks.find? (·.startsWith "E:")).bind (fun t => (t.drop 2).toString.toNat?)
+        let r0 : RState :=
+          { s := s0, prod := prod, ws := wevs, mainEvs := mevs, unsent := extra, prodDies := pd,
+            ghost := ghost, lockEvents := allToks.any (·.startsWith "X:") }
+        pure (replayLog fate expect 200000 [r0] [])
     go.getD "bad-op"
   | _ => "bad-op"
 
